@@ -1,7 +1,7 @@
 (* trash-put: the parts of the command that only probe, create directories, read the clock and log at
    DEBUG level - verified once for every program logic that accepts those operations. *)
 From TV Require Import Prelude.Str Prelude.PosixPath Prelude.Utf8 Codec.Quote Codec.DateFmt Codec.TrashInfo
-  Logic.OrigLoc Logic.Reply Prog.Prog Cmd.Put Cmd.Scan Proofs.ProgProofs Proofs.PLogic Proofs.ScanProofs Proofs.TrashInfoProofs.
+  Logic.OrigLoc Logic.Reply Prog.Prog Cmd.Put Cmd.Scan Proofs.ProgProofs Proofs.PLogic Proofs.ScanProofs Proofs.TrashInfoProofs Proofs.PathProofs Proofs.PurgeProofs.
 Open Scope N_scope.
 
 (* what the written info file must be: text from which the shared reader gets a Path back *)
@@ -16,6 +16,28 @@ Definition put_plain (o : op) : bool :=
   | Log WARNING _ t => negb (is_cannot_trash t)
   | _ => true
   end.
+
+(* the base name of an info file trash-put creates: slash-free and ending in ".trashinfo" *)
+Lemma dec_of_Z_noslash z : mem c_slash (dec_of_Z z) = false.
+Proof. destruct z; simpl; [reflexivity|apply dec_of_N_noslash|apply dec_of_N_noslash]. Qed.
+Lemma ctb_noslash base suffix ntl : mem c_slash base = false -> mem c_slash suffix = false ->
+  mem c_slash (create_trashinfo_basename base suffix ntl) = false.
+Proof.
+  intros Hb Hs. unfold create_trashinfo_basename. rewrite !mem_app. rewrite Hs. simpl.
+  destruct ntl; [|rewrite Hb; reflexivity].
+  destruct (Nat.leb _ _); rewrite firstn_mem by exact Hb; reflexivity.
+Qed.
+Lemma ctb_ends base suffix ntl : ends_with (create_trashinfo_basename base suffix ntl) s_trashinfo = true.
+Proof.
+  unfold create_trashinfo_basename. rewrite app_assoc. apply ends_with_app. reflexivity.
+Qed.
+Definition wf_data (d : trashinfo_data) : Prop :=
+  parseable (td_content d) = true /\ mem c_slash (td_basename d) = false /\ exists D, td_info_dir d = join2 D s_info.
+Lemma info_path_of_data d suffix ntl : wf_data d -> mem c_slash suffix = false ->
+  is_info_path (join2 (td_info_dir d) (create_trashinfo_basename (td_basename d) suffix ntl)) = true.
+Proof.
+  intros [_ [Hb [D HD]]] Hs. rewrite HD. apply is_info_path_join; [apply ctb_noslash; assumption|apply ctb_ends].
+Qed.
 
 Section PutSafe.
 Variable L : plogic.
@@ -85,21 +107,21 @@ Qed.
 
 Lemma safe_make_trashinfo_data path c :
   TT (make_trashinfo_data path c)
-     (fun r => match r with inl d => parseable (td_content d) = true /\ td_info_dir d = cand_info_dir c | inr _ => True end).
+     (fun r => match r with inl d => wf_data d /\ td_info_dir d = cand_info_dir c | inr _ => True end).
 Proof.
   unfold make_trashinfo_data. apply T_catch.
   - eapply T_bind; [apply T_call_str; plain|]. intros pr _.
     eapply T_bind; [apply T_call_date; plain|]. intros now _.
     destruct (format_trashinfo _ now) as [content|] eqn:Ef; [|aret].
-    apply T_ret. split; [|reflexivity]. simpl. unfold parseable.
+    apply T_ret. split; [|reflexivity]. split; [|split; [apply basename_noslash|exists (c_path c); reflexivity]]. simpl. unfold parseable.
     destruct (parse_path_format_lemma _ _ _ Ef) as [txt [Hr Hp]]. rewrite Hr, Hp. reflexivity.
   - intros e q He. destruct (is_OSError e || is_UnicodeError e); inversion He. apply T_ret. exact I.
 Qed.
 
-Lemma safe_suffix_for_index i : TT (suffix_for_index i) (fun _ => True).
+Lemma safe_suffix_for_index i : TT (suffix_for_index i) (fun sfx => mem c_slash sfx = false).
 Proof.
-  unfold suffix_for_index. destruct i; [aret|]. destruct (Nat.ltb (S i) 100); [aret|].
-  eapply T_bind; [apply T_call_z; plain|]. intros; aret.
+  unfold suffix_for_index. destruct i; [apply T_ret; reflexivity|]. destruct (Nat.ltb (S i) 100); [apply T_ret; apply dec_of_N_noslash|].
+  eapply T_bind; [apply T_call_z; plain|]. intros z _. apply T_ret. apply dec_of_Z_noslash.
 Qed.
 
 Lemma safe_log_failures path fs : TT (log_failures path fs) (fun _ => True).
